@@ -143,6 +143,20 @@ class Processor(ABC):
         """  # noqa: D401
         raise NotImplementedError()
 
+    @staticmethod
+    def _strip_engine_markers(relation: Relation) -> Relation:
+        """Return the first relation upstream of any engine-specific marker
+        relations (those that are neither transfers nor materializations) at
+        the root of the given tree.
+        """
+        while (
+            isinstance(relation, MarkerRelation)
+            and not isinstance(relation, (Transfer, Materialization))
+            and relation.payload is None
+        ):
+            relation = relation.target
+        return relation
+
     def _process_recursive(self, original: Relation, materialize_as: str | None) -> tuple[Relation, bool]:
         """Recursive implementation for `process`.
 
@@ -202,18 +216,24 @@ class Processor(ABC):
                 # materialize_as to tell an immediately-upstream
                 # transfer to materialize directly.
                 new_target, persisted = self._process_recursive(target, materialize_as=name)
+                # Engines may wrap the relations they return in markers of
+                # their own (e.g. the SQL engine's Select); payloads live on
+                # the relations inside those.
+                materialization: Relation
                 if new_target is not target:
                     result = new_target.materialized(name=name)
-                    if result.payload is not None:
+                    materialization = self._strip_engine_markers(result)
+                    if materialization.payload is not None:
                         # This operation has been simplified away
                         # (perhaps it's now a materialization of a
                         # leaf).
-                        original.attach_payload(result.payload)
+                        original.attach_payload(materialization.payload)
                         return result, True
                 else:
                     result = original
+                    materialization = original
                 if persisted:
-                    payload = new_target.payload
+                    payload = self._strip_engine_markers(new_target).payload
                 elif original.is_join_identity:
                     payload = target.engine.get_join_identity_payload()
                 elif original.max_rows == 0:
@@ -224,8 +244,8 @@ class Processor(ABC):
                 # the processed one, so it's used every time that the
                 # original relation tree is processed.
                 original.attach_payload(payload)
-                if result is not original:
-                    result.attach_payload(payload)
+                if materialization is not original:
+                    materialization.attach_payload(payload)
                 return result, True
             case MarkerRelation(target=target):
                 new_target, persisted = self._process_recursive(target, materialize_as=materialize_as)
